@@ -29,7 +29,9 @@ def _dtypes():
     if DTYPES is None:
         import polars as pl
         DTYPES = {"str": pl.Utf8, "int": pl.Int64, "float": pl.Float64, "bool": pl.Boolean, "date": pl.Date,
-                  "int32": pl.Int32, "float32": pl.Float32}
+                  "int32": pl.Int32, "float32": pl.Float32, "datetime": pl.Datetime, "time": pl.Time,
+                  "decimal": pl.Decimal(12, 2), "floatx": pl.Float64, "cat": pl.Categorical, "uint8": pl.UInt8,
+                  "null": pl.Null}
     return DTYPES
 
 
@@ -39,12 +41,26 @@ def mkdf(dfspec):
     data = {}
     schema = {}
     import datetime
+    import decimal
     for c in dfspec["cols"]:
         vals = c["values"]
-        if c["dtype"] == "date":
+        d = c["dtype"]
+        # values that JSON cannot carry are kept as the text their Python value prints as
+        if d == "date":
             vals = [None if v is None else datetime.date.fromisoformat(v) for v in vals]
+        elif d == "datetime":
+            vals = [None if v is None else datetime.datetime.fromisoformat(v) for v in vals]
+        elif d == "time":
+            vals = [None if v is None else datetime.time.fromisoformat(v) for v in vals]
+        elif d == "decimal":
+            vals = [None if v is None else decimal.Decimal(v) for v in vals]
+        elif d == "floatx":
+            vals = [None if v is None else float(v) for v in vals]
         data[c["name"]] = vals
-        schema[c["name"]] = dt[c["dtype"]]
+        if d == "enum":
+            schema[c["name"]] = pl.Enum(sorted({v for v in vals if v is not None}))
+        else:
+            schema[c["name"]] = dt[d]
     return pl.DataFrame(data, schema=schema)
 
 
@@ -93,6 +109,23 @@ def _alt_forms(kwargs, seed):
         v = out.get(k)
         if isinstance(v, int) and not isinstance(v, bool) and rng.random() < 0.5:
             out[k] = float(v)
+    # array-likes: a 1-D numpy array for a per-column vector, a 2-D array or a DataFrame for a matrix
+    for k, v in list(out.items()):
+        if not (k.startswith("text_") and isinstance(v, list) and len(v) > 1):
+            continue
+        if all(isinstance(x, list) for x in v):
+            if len({len(x) for x in v}) != 1 or len({type(y) for x in v for y in x}) != 1:
+                continue
+            r = rng.random()
+            if r < 0.25:
+                import numpy as np
+                out[k] = np.array(v)
+            elif r < 0.4 and k != "text_convert":
+                import polars as pl
+                out[k] = pl.DataFrame({f"c{j}": [row[j] for row in v] for j in range(len(v[0]))})
+        elif not any(isinstance(x, list) for x in v) and len({type(x) for x in v}) == 1 and rng.random() < 0.3:
+            import numpy as np
+            out[k] = np.array(v)
     return out
 
 
